@@ -1173,6 +1173,31 @@ def emit_cdist():
             "Open Scope Z_scope.\nOpen Scope bool_scope.\n\n" + cfun.render(alld))
 
 
+CED_FUNCS = [("dd_ed.c", "euclidean_distance_squared", False), ("dd_ed.c", "euclidean_distance", False),
+             ("dd_ed.c", "euclidean_distance_euclidean", False), ("dd_ed.c", "euclidean_distance_ndim_squared", True),
+             ("dd_ed.c", "euclidean_distance_ndim", True), ("dd_ed.c", "euclidean_distance_ndim_euclidean", True),
+             ("dd_dtw.c", "ub_euclidean", False), ("dd_dtw.c", "ub_euclidean_ndim", True),
+             ("dd_dtw.c", "ub_euclidean_euclidean", False), ("dd_dtw.c", "ub_euclidean_ndim_euclidean", True)]
+
+
+def emit_ced():
+    import cfun
+    d = os.path.join(REPO, "src/DTAIDistanceC/DTAIDistanceC")
+    hdr = open(os.path.join(d, "dd_dtw.h")).read()
+    alld = []
+    try:
+        for f, fn, nd in CED_FUNCS:
+            b = {"s1": "l1 * ndim", "s2": "l2 * ndim"} if nd else {"s1": "l1", "s2": "l2"}
+            alld.extend(cfun.translate_function(open(os.path.join(d, f)).read(), hdr, fn, b))
+    except cfun.TranslateError as exc:
+        raise TranslateError("cfun: %s" % exc)
+    check_fv([(name, [p for p, _ in params], text) for name, params, ret, text in alld])
+    return ("(* GENERATED by tools/translate_c.py (tools/cfun.py) from dd_ed.c and dd_dtw.c -- do not edit *)\n"
+            "(* the Euclidean distance / upper bound routines translated WHOLE *)\n"
+            "From Coq Require Import ZArith Bool List.\nFrom DV Require Import Prelude Cost CLang.\nImport ListNotations.\n"
+            "Open Scope Z_scope.\nOpen Scope bool_scope.\n\n" + cfun.render(alld))
+
+
 def write_gen(outdir, fname, text):
     os.makedirs(outdir, exist_ok=True)
     p = os.path.join(outdir, fname)
@@ -1188,6 +1213,7 @@ def coq_str_list(xs):
 def _main():
     outdir = sys.argv[1] if len(sys.argv) > 1 else "/verif/coq/gen"
     write_gen(outdir, "Gen_cdist.v", emit_cdist())
+    write_gen(outdir, "Gen_ced.v", emit_ced())
     try:
         text = emit_loc(analyse_loc())
     except (TranslateError, OSError) as exc:
